@@ -42,6 +42,10 @@ class BodyFault(Exception):
   pass
 
 
+class BaseFault(BaseException):
+  """Not an Exception (KeyboardInterrupt-like)."""
+
+
 def _tree(rng, nprod, depth, refs_ok=True):
   r = rng.random()
   if depth >= 3 or r < 0.35:
@@ -50,7 +54,11 @@ def _tree(rng, nprod, depth, refs_ok=True):
       return {'lit': rng.choice([rng.randint(0, 99), 's%d' % rng.randint(0, 9),
                                  None, True])}
     sc = '/'.join(rng.choice(SC) for _ in range(rng.choice([0, 0, 1, 1, 2])))
-    return {'ref': [sc, 'prod%d' % rng.randrange(nprod), rng.random() < 0.65]}
+    # producers live in module `pm`; producer 0 has a namesake in module `alt`
+    name = 'pm.prod%d' % rng.randrange(nprod)
+    if name == 'pm.prod0' and rng.random() < 0.4:
+      name = 'alt.prod0'
+    return {'ref': [sc, name, rng.random() < 0.65]}
   if r < 0.6:
     return {'list': [_tree(rng, nprod, depth + 1, refs_ok)
                      for _ in range(rng.randint(0, 3))]}
@@ -87,7 +95,11 @@ def gen(rng, tier):
                   # the same reference may be evaluated while it is being
                   # evaluated
                   'reenter': ('cons%d' % rng.randrange(ncons))
-                             if rng.random() < 0.2 else None})
+                             if rng.random() < 0.2 else None,
+                  # a producer interrupted by a non-Exception BaseException
+                  'base_fault': rng.random() < 0.08,
+                  # gin.REQUIRED passed for parameters that have a binding
+                  'req': [p for p in PARAMS if rng.random() < 0.12]})
     elif r < 0.85:
       ops.append({'op': 'get_bindings', 'cons': cons, 'ambient': amb,
                   'mutate': True})
@@ -206,8 +218,12 @@ def run(case):
       obj.label = 'MUTATED-' + obj.label
 
   def hook(name, named, args, kwargs, self_):
-    if name.startswith('prod'):
+    if name.startswith('prod') or name.startswith('altprod'):
+      name = ('alt.prod0' if name.startswith('altprod') else 'pm.' + name)
       counters[name] = counters.get(name, 0) + 1
+      if ctx.get('base_fault') == name and not ctx.get('base_fault_done'):
+        ctx['base_fault_done'] = True
+        raise BaseFault('interrupted inside a producer')
       t = log.tok(name)
       t.extra = gin.current_scope()
       prod_calls.append((name, t.extra, t.serial))
@@ -250,8 +266,13 @@ def run(case):
   for i in range(case['nprod']):
     obj, _ = probes.compile_probe({'name': 'prod%d' % i, 'kind': 'fn',
                                    'params': []}, hook)
-    probes.register_probe({'name': 'prod%d' % i}, obj)
-    root_callables['prod%d' % i] = gin.get_configurable('prod%d' % i)
+    probes.register_probe({'name': 'prod%d' % i, 'module': 'pm'}, obj)
+    root_callables['pm.prod%d' % i] = gin.get_configurable('pm.prod%d' % i)
+  alt, _ = probes.compile_probe({'name': 'altprod0', 'kind': 'fn', 'params': []},
+                                hook)
+  probes.register_probe({'name': 'altprod0', 'regname': 'prod0', 'module': 'alt'},
+                        alt)
+  root_callables['alt.prod0'] = gin.get_configurable('alt.prod0')
   cons = {}
   for i in range(case['ncons']):
     obj, _ = probes.compile_probe(
@@ -299,10 +320,13 @@ def run(case):
     if k == 'call':
       app = applicable(op['cons'], op['ambient'])
       caller = {}
+      req = [p for p in op.get('req', []) if p in app]
       for p in PARAMS[:op['npos']]:
         caller[p] = probes.Tok(0, 'caller-' + p)
       for p in op['kw']:
         caller[p] = probes.Tok(0, 'caller-' + p)
+      for p in req:
+        caller.pop(p, None)   # marked REQUIRED: gin fills it from the binding
       supplied = {p: val for p, val in app.items() if p not in caller}
       want_counts = {}
       for val in supplied.values():
@@ -319,6 +343,12 @@ def run(case):
                   'pending_callable_checks': [],
                   'reenter': op.get('reenter') if want_counts else None,
                   'reentered': False, 'reenter_exc': None})
+      evaluated = sorted(want_counts)
+      if op.get('base_fault') and evaluated and not ctx['reenter']:
+        ctx['base_fault'] = evaluated[0]
+        ctx['base_fault_done'] = False
+      else:
+        ctx['base_fault'] = None
       if ctx['reenter']:
         # the nested call (under the root scope) evaluates its own references
         for val in applicable(ctx['reenter'], []).values():
@@ -326,10 +356,17 @@ def run(case):
       exc = None
       try:
         with gin.config_scope(list(op['ambient']) if op['ambient'] else None):
-          args = [caller[p] for p in PARAMS[:op['npos']]]
-          kwargs = {p: caller[p] for p in op['kw']}
+          args = [gin.REQUIRED if p in req else caller[p]
+                  for p in PARAMS[:op['npos']]]
+          kwargs = {p: (gin.REQUIRED if p in req else caller[p])
+                    for p in op['kw']}
+          for p in req:
+            if p not in PARAMS[:op['npos']] and p not in kwargs:
+              kwargs[p] = gin.REQUIRED
           cons[op['cons']](*args, **kwargs)
       except BodyFault as e:
+        exc = e
+      except BaseFault as e:
         exc = e
       except Exception as e:  # pylint: disable=broad-except
         exc = e
@@ -346,6 +383,26 @@ def run(case):
           (op, type(ctx['reenter_exc']).__name__,
            probes.scrub(str(ctx['reenter_exc']))[:300]))
       ctx['reenter'] = None
+      interrupted = ctx.get('base_fault') and ctx.get('base_fault_done')
+      ctx['base_fault'] = None
+      if interrupted:
+        # The evaluation was interrupted by a non-Exception: it must reach the
+        # caller, and the thread must be back in the scope it was in.
+        if not isinstance(exc, BaseFault):
+          v('C04.call_succeeds', ['base-fault-lost'],
+            'call %r: the BaseException raised inside a producer reached the '
+            'caller as %r' % (op, exc))
+        if gin.current_scope() != []:
+          v('C04.scope_restored_after_interrupt', [],
+            'call %r: after the interrupted evaluation the active scope is %r' %
+            (op, gin.current_scope()))
+          world.config._SCOPE_MANAGER = type(world.config._SCOPE_MANAGER)()  # pylint: disable=protected-access
+        log.add('call-interrupted', op['cons'])
+        after = snapshot()
+        if after != pristine:
+          v('C04.store_immutable', ['interrupt'], 'configuration changed')
+          pristine = after
+        continue
       if not ctx['ran'] and exc is None:
         v('C04.call_succeeds', ['body-not-run'], 'call %r: body did not run' % op)
       got_counts = {n: counters.get(n, 0) - before_counts.get(n, 0)
